@@ -11,10 +11,11 @@ from gv.model import dbutil, files, grammar as G
 
 ID = "C13"
 RULE = (
-    "Part 'forms' (shards = annotation x input form): annotations GFF3 n=1,3,4, GTF n=3, a 4-line GFF3 text with inconsistent "
-    "multi-value spelling (thorough also GFF3 n=12, GTF n=5) x 12 forms (path, .gz, from_string, list of Features, instrumented "
-    "one-shot generator, DataIterator with the transform on the iterator or on create_db, FeatureDB, path / .gz / string with CRLF line "
-    "ends, a plain-text path whose name contains '.gz') x checklines 0..n+2 x transform (none, modify, drop-odd). Checked: iterated "
+    "Part 'forms' (shards = annotation x input form): 7 annotations in quick = GFF3 n=1,3,4,12, GTF n=3, a 4-line GFF3 text with "
+    "inconsistent multi-value spelling, a 4-line GFF3 text whose third feature has '.' coordinates (thorough 10: also GTF n=5, GFF3 "
+    "n=25, GTF n=14) x 12 forms (path, .gz, from_string, list of Features, instrumented one-shot generator, DataIterator with the "
+    "transform on the iterator or on create_db, FeatureDB, path / .gz / string with CRLF line ends, a plain-text path whose name "
+    "contains '.gz') x checklines 0..n+2 x transform (none, modify, drop-odd). Checked: iteration and import must not raise; iterated "
     "sequence equals the expectation; transform called exactly once per feature in order; generator items pulled exactly once in order; "
     "two live iterators of the same form over different annotations do not interfere; create_db from the form gives the same "
     "features+relations and stored dialect as create_db from a plain path, whose lines equal the expectation. For the inconsistent text "
